@@ -197,7 +197,7 @@ class PianorollSequence(events_lib.EventSequence):
       note_start_offset = note.quantized_start_step - start_step
       note_end_offset = note.quantized_end_step - start_step
 
-      if split_repeats:
+      if split_repeats and note_start_offset > 0:
         piano_roll[note_start_offset - 1, note_pitch_offset] = 0
       piano_roll[note_start_offset:note_end_offset, note_pitch_offset] = 1
 
